@@ -7,8 +7,11 @@ import re
 PRELUDE = "import enum, os\nclass E(enum.Enum):\n    A = 1\n    B = 'b'\n"
 ENV = {}
 exec(PRELUDE, ENV)
-OBJS = ["os", "int", "E.A", "E"]
+OBJS = ["os", "int", "E.A", "E", "float", "bytes"]
 OBJ_ATTRS = ["path", "ptah", "value", "name", "A", "real", "__name__", "sep", "__dict__", "__class__"]
+# names the mock module adds: the ignored_end_of_reference option silences them by design, except on classes whose attributes are all known
+MOCK_ATTRS = ["count", "called", "call_count", "reset_mock"]
+KNOWN_ATTR_ROOTS = ["int", "float", "bytes", "E"]
 LITS = ["1", "0", "-3", "True", "1.5", "'ab'", "''", "b'x'", "(1, 2)", "()", "None", "[1]"]
 BINOPS = ["+", "-", "*", "//", "%", "**", "|", "&", "<<"]
 UNOPS = ["-", "+", "~", "not "]
@@ -51,6 +54,8 @@ def search(all_=False):
     for a, attr in itertools.product(LITS, ATTRS):
         exprs.append(f"({a}).{attr}")
     for a, attr in itertools.product(OBJS, OBJ_ATTRS):
+        exprs.append(f"{a}.{attr}")
+    for a, attr in itertools.product(KNOWN_ATTR_ROOTS, MOCK_ATTRS):
         exprs.append(f"{a}.{attr}")
     for a, op, b in itertools.product(OBJS, ["+", "|", "*"], ["1", "E.A", "int", "'ab'"]):
         exprs.append(f"({a}) {op} ({b})")
